@@ -18,40 +18,63 @@ KeepPathType == TRUE
 KeyRegime == "mock"      \* (the key-regime records carry the generator's predictions)
 CheckSrcHost == TRUE
 MaxDatagrams == 1
+EpochLen == 1  MaxClock == 0  Grace == 0   \* (recorded epochs are the DRKey daemon's, see KeyRec)
 CIAs == {}  CHosts == {}  PathExts == {}  RespExts == {}
 Modes == {}  ULs == {}  L4s == {}  DPorts == {}  DHosts == {}  Fams == {}  PathSet == {}  Pls == {}
 ReqAuths == {}  RespMuts == {}
-VARIABLES mode, cauth, pc, req, authd, act, out, rm, resp, cres, cache, kinfo, nsent, hist
+VARIABLES mode, cauth, pc, req, authd, act, out, rm, resp, cres, cache, kinfo, nsent, hist, clock
 INSTANCE ScionAuth
 
 Trace == ndJsonDeserialize("trace.ndjson")
 N == Len(Trace)
 VARIABLE l
-svars == <<mode, cauth, pc, req, authd, act, out, rm, resp, cres, cache, kinfo, nsent, hist>>
+svars == <<mode, cauth, pc, req, authd, act, out, rm, resp, cres, cache, kinfo, nsent, hist, clock>>
 TInit == /\ l = 0
          /\ mode = "server" /\ cauth = FALSE /\ pc = "trace" /\ req = Blank /\ authd = FALSE /\ act = "-"
          /\ out = << >> /\ rm = "-" /\ resp = Blank /\ cres = "-"
-         /\ cache = << >> /\ kinfo = NoKInfo /\ nsent = 0 /\ hist = << >>
+         /\ cache = << >> /\ kinfo = NoKInfo /\ nsent = 0 /\ hist = << >> /\ clock = 0
 TNext == /\ \E j \in 1 .. 16 : l' = 16 * l + j /\ l' <= N
          /\ UNCHANGED svars
 TSpec == TInit /\ [][TNext]_<<l, svars>>
 
 R == Trace[l]
-Exch == l > 0 /\ R.k \in {"req", "e2e", "key"}   \* one datagram sent to a listener and what came out
+\* one datagram sent to a listener and what came out
 \* ("key": a step of a key-regime sequence; its MAC ground truth is relative to the
-\* host-to-host key of (destination ISD-AS, source ISD-AS, destination host, source host))
+\* host-to-host keys of (destination ISD-AS, source ISD-AS, destination host, source
+\* host), one per key epoch; a step during which an epoch boundary of the DRKey
+\* daemon passed -- R.amb: its receive time lies in one epoch or the other -- is
+\* counted, not judged)
+Exch == l > 0 /\ R.k \in {"req", "e2e", "key"} /\ ~R.amb
+\* Time / key epochs.  A key-regime record tells the epoch R.ep (the DRKey daemon's
+\* numbering) that contains the instant the datagram was received at, and for the
+\* datagram and everything that came out the epochs vep under whose host-to-host key
+\* the MAC verifies (scionproto's SPAO computation with each epoch's key).  "The MAC
+\* verifies under the host-to-host key" = under the key of the epoch the datagram
+\* was received in.
+\*   "key"   a datagram at the live listener (VerifRunSCIONServer)
+\*   "fkey"  the same calls the listener makes (Fetcher.FetchHostASKey for the receive
+\*           instant, DeriveHostHostKey, MAC comparison), made by the harness with an
+\*           exact instant: first / middle / last nanosecond of an epoch
+KeyRec == l > 0 /\ R.k \in {"key", "fkey"}
+VerifiesIn(d, e) == \E i \in DOMAIN d.vep : d.vep[i] = e
+ReqMacOk == IF KeyRec THEN VerifiesIn(R.q, R.ep) ELSE R.macok
+OutMacOk(o) == IF KeyRec THEN VerifiesIn(o, R.ep) ELSE o.auth = "ok"
 Stateless == l > 0 /\ R.k \in {"req", "e2e"}   \* ... at a listener whose key cache does not matter
 E2E  == l > 0 /\ R.k = "e2e"
 Q == R.q
 O(i) == R.outs[i]
 NtpRep(o) == o.l4 = "udp" /\ o.pl = "ntpResp"
 ServedObs == \E i \in DOMAIN R.outs : NtpRep(O(i))
-ReqVerified == R.hasauth /\ R.expected /\ R.macok
+ReqVerified == R.hasauth /\ R.expected /\ ReqMacOk
 
 \* ------------------------------------------------------------- monitor (C13)
 \* MacSound, request side: expected SPI and algorithm, MAC does not verify over
 \* the datagram as it arrived => no NTP response came out
-TMacSoundReq == Exch => MacSoundReq(R.hasauth /\ R.expected, R.macok, ServedObs)
+TMacSoundReq == Exch => MacSoundReq(R.hasauth /\ R.expected, ReqMacOk, ServedObs)
+\* ... and at the level of the fetcher: the key it hands out for the receive instant
+\* authenticates the request (R.accepted) => the MAC verifies under the key of the
+\* epoch that contains that instant
+TMacSoundFetcher == (l > 0 /\ R.k = "fkey") => MacSoundReq(R.hasauth /\ R.expected, ReqMacOk, R.accepted)
 \* The client's verdict R.cli is read off the return of its measurement call
 \* (no log record is needed): "accept" = it returned a measurement, "refuse" = the
 \* response was handed to its socket and it returned without one before its
@@ -63,7 +86,7 @@ TMacSoundResp == (E2E /\ R.delivered) =>
 \* AuthReplyVerifies: the reply to a verified request carries a response
 \* authenticator that verifies (SPAO computation over the reply as it arrived) ...
 TAuthReply == Exch => \A i \in DOMAIN R.outs :
-   NtpRep(O(i)) => AuthReply(ReqVerified, O(i).aspi = "server" /\ O(i).aalgo = "cmac", O(i).auth = "ok")
+   NtpRep(O(i)) => AuthReply(ReqVerified, O(i).aspi = "server" /\ O(i).aalgo = "cmac", OutMacOk(O(i)))
 \* ... and the requesting client, handed that reply untouched, does not refuse it
 \* (that it really checks the authenticator is TMacSoundResp's half: the same
 \* client turns the reply down once a covered bit is changed)
@@ -130,20 +153,31 @@ SClientLog == (E2E /\ R.clilog # "") =>
 SNoStray == l > 0 => R.k # "stray"
 \* key-regime sequences: the step's outcome and the key daemon's view are what the
 \* behaviour of ScionAuth.tla (cache per client ISD-AS, revalidation) says
-SKey == (l > 0 /\ R.k = "key" /\ R.sn = 1) =>
+SKey == (l > 0 /\ R.k = "key" /\ R.sn = 1 /\ ~R.amb) =>
+   /\ ReqMacOk = R.wmacok       \* the step was realised as generated (key epoch vs. epoch of arrival)
    /\ ObsAct = R.wact
    /\ R.fetches = (IF R.wfetch THEN 1 ELSE 0)
    /\ Len(R.outs) <= 1
    /\ \A i \in DOMAIN R.outs : NtpRep(O(i)) /\ O(i).auth # "absent" /\ O(i).echo /\ O(i).from = Q.ul
 
+\* fetcher level: the key handed out is the one of the epoch containing the instant asked
+\* for, the daemon is asked iff the specification's cache rule says so, and the request is
+\* authenticated iff the specification says so
+SFKey == (l > 0 /\ R.k = "fkey") =>
+   /\ ReqMacOk = R.wmacok
+   /\ R.inep /\ R.fep = R.ep
+   /\ R.fetches = (IF R.wfetch THEN 1 ELSE 0)
+   /\ R.accepted = (R.wact = "ServeNtp")
+
 \* ------------------------------------------------------------------- report
 \* (ScionAuthTrace_report.cfg) after a failed pass: every record that fails and
 \* the clauses it fails, in one run; the verdict per record is still the
 \* monitor's (mon) resp. the strict mode's (strict)
-MonNames == {"TMacSoundReq", "TMacSoundResp", "TAuthReply", "TAuthReplyClient", "TReplyAddressing", "TForwardRule",
+MonNames == {"TMacSoundReq", "TMacSoundFetcher", "TMacSoundResp", "TAuthReply", "TAuthReplyClient", "TReplyAddressing", "TForwardRule",
              "TNoStrayToEh"}
-StrictNames == {"SOne", "SGroundTruth", "SAct", "SReply", "SResp", "SClient", "SClientLog", "SNoStray", "SKey"}
+StrictNames == {"SOne", "SGroundTruth", "SAct", "SReply", "SResp", "SClient", "SClientLog", "SNoStray", "SKey", "SFKey"}
 Holds(n) == CASE n = "TMacSoundReq" -> TMacSoundReq [] n = "TMacSoundResp" -> TMacSoundResp
+              [] n = "TMacSoundFetcher" -> TMacSoundFetcher [] n = "SFKey" -> SFKey
               [] n = "TAuthReply" -> TAuthReply [] n = "TAuthReplyClient" -> TAuthReplyClient
               [] n = "TReplyAddressing" -> TReplyAddressing [] n = "TForwardRule" -> TForwardRule
               [] n = "TNoStrayToEh" -> TNoStrayToEh
